@@ -135,6 +135,8 @@ structure DS where
   variant : String := ""
   sm : State := State.init                 -- model state (compacted)
   pending : Option (Res State) := none     -- model's answer to the current op
+  throwSm : State := State.init            -- model state if the current op throws (`afterThrow`)
+  prevImpl : Option State := none          -- the implementation's previous graph of this case (for the two-state type check)
   lastOp : String := ""
   stepNo : Nat := 0                        -- index of the current op within the case
   lastAt : String := ""
@@ -170,6 +172,7 @@ def parseOp (toks : List String) : Option (List Op) :=
   | "newclock" :: _ => some [.createClock]
   | ["clone", h] => some [.cloneNode (pNat h)]
   | ["killclock", c] => some [.destroyClock (pNat c)]
+  | ["tconnect", cls, h, i, d] => some [.typedConnect (pNat cls) (pNat h) (pNat i) (pONP d)]
   | ["getclocked", c] => some [.getClockedNodes (pNat c)]
   | ["setdrv", k, c, h] => some [.setLogicDriver (pNat k) (pNat c) (pNat h)]
   | "copysubnet" :: cc :: nIn :: rest =>
@@ -265,6 +268,7 @@ def finishDump (d : DS) : IO DS := do
     -- model side
     let sm' := match d.pending with
       | some (.ok s') => compact s'
+      | some (.error .assert) => compact d.throwSm
       | _ => d.sm
     let mr := render (tabulate sm')
     if mr != d.raw then
@@ -278,6 +282,12 @@ def finishDump (d : DS) : IO DS := do
   let bad := invReport si
   let bad := if d.mode == "design" ∧ !(decide (AllGrouped si)) then bad ++ ["ungrouped"] else bad
   let mut bad := bad
+  if d.mode == "ops" then
+    -- two-state clause on the implementation's own consecutive graphs: no connection that persists sees another driver type
+    match d.prevImpl with
+    | some p => if !(decide (TypeStable p si)) then bad := bad ++ ["type_changed_under_consumer"]
+    | none => pure ()
+    d := { d with prevImpl := some si }
   if d.mode == "design" then
     let (tv, n, tk) := typeCheck d si
     d := { d with typeChecked := d.typeChecked + n, tkinds := tk }
@@ -318,7 +328,7 @@ partial def loop (h : IO.FS.Stream) (d : DS) : IO DS := do
   | "#" :: _ => loop h d
   | "case" :: k :: mode :: rest =>
     let v := rest.headD ""
-    loop h { d with mode := mode, caseId := k, variant := v, cases := d.cases + 1, sm := State.init, pending := none, lastOp := "", lastAt := "", stepNo := 0,
+    loop h { d with mode := mode, caseId := k, variant := v, cases := d.cases + 1, sm := State.init, pending := none, prevImpl := none, lastOp := "", lastAt := "", stepNo := 0,
                     variants := if mode == "design" then bump d.variants v else d.variants,
                     flags := (rest.drop 1).foldl bump d.flags }
   | ["end"] => loop h d
@@ -335,7 +345,13 @@ partial def loop (h : IO.FS.Stream) (d : DS) : IO DS := do
       | _ => match parseOp rest with
         | some ops => applyOps d.sm ops
         | none => .error .ub
-    loop h { d with pending := some r, lastOp := " ".intercalate rest, ops := d.ops + 1, stepNo := d.stepNo + 1, hist := bump d.hist (rest.headD "?") }
+    let thr : State :=
+      match rest with
+      | "new" :: _ => d.sm
+      | _ => match parseOp rest with
+        | some [op] => afterThrow d.sm op
+        | _ => d.sm
+    loop h { d with throwSm := thr, pending := some r, lastOp := " ".intercalate rest, ops := d.ops + 1, stepNo := d.stepNo + 1, hist := bump d.hist (rest.headD "?") }
   | ["r", w] =>
     let m := match d.pending with | some r => resName r | none => "?"
     let mut d := { d with res := bump d.res w }
